@@ -35,7 +35,7 @@ theorem mem_dictSet {es : List (DKey × Ref)} {k : DKey} {v x : Ref}
   | nil => simp [dictSet] at hx; exact Or.inl hx
   | cons e es ih =>
     obtain ⟨k0, v0⟩ := e
-    by_cases hk : k0 = k
+    by_cases hk : k0.norm = k.norm
     · simp [dictSet, hk] at hx
       rcases hx with hx | hx
       · exact Or.inl hx
